@@ -161,7 +161,10 @@ def _to_string(
                 out += indeterminant
             if exponent > 1:
                 out += options["display_exponent"] + str(exponent)
-        if output and float(coefficients[idx]) >= 0:
+        # every term but the first is joined with a sign: its own leading
+        # minus, else a plus (also for complex coefficients with a negative
+        # real part, which print in parentheses, and for nan)
+        if output and not out.startswith("-"):
             out = "+" + out
         output.append(out)
 
